@@ -93,7 +93,12 @@ func findModuleAndIsExternal(y Definition, prefix string) (*Module, bool, error)
 	sub, found := m.imports[prefix]
 	if !found {
 		if m.belongsTo != nil && m.belongsTo.prefix == prefix {
-			return m.parent.(*Module), true, nil
+			// the prefix a submodule gives its module is the module's own prefix:
+			// names are searched in the enclosing scopes first like unprefixed ones
+			if parent, valid := m.parent.(*Module); valid {
+				return parent, false, nil
+			}
+			return nil, true, errors.New(m.Ident() + " - belongs-to is only valid in a submodule")
 		}
 		return nil, true, errors.New("module not found " + prefix)
 	}
